@@ -1,10 +1,71 @@
 (* C02 — Each operation's frame encodes exactly that operation and the caller's arguments *)
-Require Import AS.Base.Prelude AS.Base.Template AS.Gen.Extracted AS.Spec.FrameLayout AS.Proofs.LayoutMatch.
+Require Import AS.Base.Prelude AS.Base.Hex AS.Base.Template AS.Base.Exchange AS.Gen.Extracted AS.Spec.Frame AS.Spec.FrameLayout
+  AS.Spec.FrameSpec AS.Model.DeviceTools AS.Model.Api AS.Proofs.LayoutMatch AS.Proofs.SpecFrames AS.Proofs.SpecOps.
+Local Open Scope N_scope.
 
-(* partial: every packet template of the sources is, piece by piece, the independently written byte layout of
-   Spec/FrameLayout.v (so every fixed byte and the position and order of every argument are those of the protocol
-   table); the encoders of the arguments are covered by the lemmas of C11, C12 and the correspondence streams *)
-Theorem C02_templates_are_the_layouts_partial :
+(* The Spec (Spec/FrameLayout.v, Spec/FrameSpec.v): an independently written byte layout per operation and the declared
+   meaning of each argument; spec_<operation> gives the frame that must be written (Frame), says that the call must
+   raise having written the login frame only (MustRaise), or leaves the input alone (Unspecified).
+   outcome_is x v: x = ([login frame of the Spec; command frame of the Spec], device answer) when v = Frame,
+   x = ([login frame], exception) when v = MustRaise.
+   Premises everywhere: a 3-byte device id, a 1-byte key, a clock reading below 2^32, a login reply of at least 12 bytes. *)
+
+Section C02.
+Variables (idb : bytes) (keyb : N) (now : N) (r0 : bytes) (rest : list bytes).
+Hypothesis Lid : length idb = 3%nat.
+Hypothesis Hid : Forall (fun b => b < 256) idb.
+Hypothesis Hkey : keyb < 256.
+Hypothesis Hnow : now < 4294967296.
+Hypothesis Hr0 : Forall (fun b => b < 256) r0.
+Hypothesis Lr0 : (12 <= length r0)%nat.
+Let c := cfg_of idb keyb.
+Let h := hdr_args (pyslice 8 12 r0) now idb.
+
+(* on/off flag and timer seconds = 60 x minutes, zero when no timer; a timer beyond 32 bits raises *)
+Theorem C02_control_device (on : bool) minutes :
+  outcome_is idb keyb now rest (Exchange.run (control_device_op false c now (s2l (if on then "1" else "0")) minutes) (r0 :: rest))
+             (spec_control h on minutes).
+Proof. exact (control_exact idb keyb now r0 rest Lid Hid Hkey Hnow Hr0 Lr0 on minutes). Qed.
+
+(* auto-shutdown seconds: whole minutes within 1 h .. 23 h 59 m, anything else raises *)
+Theorem C02_set_auto_shutdown secs :
+  outcome_is idb keyb now rest (Exchange.run (set_auto_shutdown_op false c now secs) (r0 :: rest)) (spec_auto_shutdown h secs).
+Proof. exact (auto_shutdown_exact idb keyb now r0 rest Lid Hid Hkey Hnow Hr0 Lr0 secs). Qed.
+
+(* the name as UTF-8 zero-padded to exactly 32 bytes; fewer than 2 bytes or more than 32 bytes raise *)
+Theorem C02_set_device_name name : Forall (fun b => b < 256) name ->
+  outcome_is idb keyb now rest (Exchange.run (set_device_name_op false c now name) (r0 :: rest)) (spec_set_name h name).
+Proof. exact (set_name_exact idb keyb now r0 rest Lid Hid Hkey Hnow Hr0 Lr0 name). Qed.
+
+Theorem C02_get_schedules :
+  outcome_is idb keyb now rest (Exchange.run (get_schedules_op false c now) (r0 :: rest)) (frame_of L_get_schedules h).
+Proof. exact (get_schedules_exact idb keyb now r0 rest Lid Hid Hkey Hnow Hr0 Lr0). Qed.
+
+(* schedule slot id '0'..'7' *)
+Theorem C02_delete_schedule slot :
+  outcome_is idb keyb now rest (Exchange.run (delete_schedule_op false c now slot) (r0 :: rest)) (spec_delete h slot).
+Proof. exact (delete_exact idb keyb now r0 rest Lid Hid Hkey Hnow Hr0 Lr0 slot). Qed.
+
+Theorem C02_stop :
+  outcome_is idb keyb now rest (Exchange.run (stop_op false c now) (r0 :: rest)) (frame_of L_runner_stop h).
+Proof. exact (stop_exact idb keyb now r0 rest Lid Hid Hkey Hnow Hr0 Lr0). Qed.
+
+(* shutter position 0-100 *)
+Theorem C02_set_position p :
+  outcome_is idb keyb now rest (Exchange.run (set_position_op false c now p) (r0 :: rest)) (spec_set_position h p).
+Proof. exact (set_position_exact idb keyb now r0 rest Lid Hid Hkey Hnow Hr0 Lr0 p). Qed.
+End C02.
+Print Assumptions C02_control_device.
+Print Assumptions C02_set_auto_shutdown.
+Print Assumptions C02_set_device_name.
+Print Assumptions C02_get_schedules.
+Print Assumptions C02_delete_schedule.
+Print Assumptions C02_stop.
+Print Assumptions C02_set_position.
+
+(* the schedule record and the remaining frames (create_schedule, the state queries, thermostat frames): every packet
+   template of the sources equals, piece by piece, the independent layout; the record encoders are C11's and C12's theorems *)
+Theorem C02_templates_are_the_layouts :
   matches T_LOGIN_PACKET_TYPE1 L_login1 = true /\ matches T_LOGIN2_PACKET_TYPE2 L_login2 = true /\
   matches T_GET_STATE_PACKET_TYPE1 L_get_state1 = true /\ matches T_GET_STATE_PACKET2_TYPE2 L_get_state2 = true /\
   matches T_SEND_CONTROL_PACKET L_control = true /\ matches T_SET_AUTO_OFF_SET_PACKET L_auto_off = true /\
@@ -18,4 +79,14 @@ Proof.
         (conj M_set_name (conj M_get_schedules (conj M_delete (conj M_create (conj M_record (conj M_breeze_command
         (conj M_breeze_status (conj M_runner_stop M_set_position)))))))))))))).
 Qed.
-Print Assumptions C02_templates_are_the_layouts_partial.
+Print Assumptions C02_templates_are_the_layouts.
+
+(* whatever a call site writes is the Spec's frame for the same arguments (used for every frame above) *)
+Theorem C02_written_frame_is_the_layout T L args (fix_len : bool) p p' out bs :
+  matches T L = true -> format T args = Ok p ->
+  (if fix_len then set_message_length false p else Ok p) = Ok p' ->
+  sign_packet_with_crc_key p' = Ok out -> unhexlify out = Some bs -> frame_okb bs = true ->
+  (fix_len = true -> pyslice 0 4 p = s2l "fef0") ->
+  frame_of L args = Frame bs.
+Proof. exact (written_is_spec T L args fix_len p p' out bs). Qed.
+Print Assumptions C02_written_frame_is_the_layout.
